@@ -235,6 +235,20 @@ func c06Run(c *fw.C, caseID string) {
 		return
 	}
 	// B may have skipped nothing, A may have skipped slots: heights decide, B is longer
+	// two honest producers with the same keys can produce the SAME momentum (same slot, same content): if branch X is
+	// a prefix of branch Y nothing is abandoned, the case says nothing about reorganisations (and the X-pool blocks the
+	// switching node heard stay legitimately valid) — found by the thorough sweep as 3 alarms in 2400 forks
+	diverged := false
+	for h := forkPoint + 1; h <= A.Height(); h++ {
+		if da, db := A.Detailed(h), B.Detailed(h); da == nil || db == nil || da.Momentum.Hash != db.Momentum.Hash {
+			diverged = true
+			break
+		}
+	}
+	if !diverged {
+		c.Count("forks_whose_branches_coincide", 1)
+		return
+	}
 	feats := map[string]bool{}
 	for k := range wA.Accepted {
 		if wA.Accepted[k] > 0 {
@@ -294,6 +308,12 @@ func c06Run(c *fw.C, caseID string) {
 		_ = S.Bridge.AddAccountBlocks([]*nom.AccountBlock{simnet.CloneBlock(b)})
 	}
 	c.Count("pool_blocks_of_abandoned_branch_on_switching_node", len(S.Chain.GetAllUncommittedAccountBlocks()))
+	if os.Getenv("C06_DEBUG") != "" {
+		c.Logf("DEBUG before switch: forkPoint=%d depthX=%d extraY=%d A=%d B=%d S=%d Spool=%d", forkPoint, depthX, extraY, A.Height(), B.Height(), S.Height(), len(S.Chain.GetAllUncommittedAccountBlocks()))
+		for _, b := range S.Chain.GetAllUncommittedAccountBlocks() {
+			c.Logf("DEBUG   S pool %s/%d %s ack=%d", b.Address, b.Height, b.Hash, b.MomentumAcknowledged.Height)
+		}
+	}
 
 	// switch S to Y
 	deliverFork := func(to *simnet.Node, from *simnet.Node, fp uint64) (int, error) {
@@ -327,6 +347,12 @@ func c06Run(c *fw.C, caseID string) {
 		c.Violation("switch-refused", map[string]interface{}{"err": err.Error(), "index": i, "depthX": depthX, "lenY": depthX + extraY, "S_height": S.Height(), "forkPoint": forkPoint})
 		return
 	}
+	if os.Getenv("C06_DEBUG") != "" {
+		c.Logf("DEBUG right after deliverFork: S=%d Spool=%d", S.Height(), len(S.Chain.GetAllUncommittedAccountBlocks()))
+		for h := forkPoint; h <= S.Height(); h++ {
+			c.Logf("DEBUG   S chain %d %s  B %s A %s", h, S.Detailed(h).Momentum.Hash, B.Detailed(h).Momentum.Hash, func() string { if d := A.Detailed(h); d != nil { return d.Momentum.Hash.String() }; return "-" }())
+		}
+	}
 	R := open("R", false)
 	defer R.Stop()
 	if err := R.SyncFrom(B, 23); err != nil {
@@ -337,8 +363,14 @@ func c06Run(c *fw.C, caseID string) {
 	wB.Step(6)
 	for _, b := range B.Chain.GetAllUncommittedAccountBlocks() {
 		for _, n := range []*simnet.Node{S, R} {
-			_ = n.Bridge.AddAccountBlocks([]*nom.AccountBlock{simnet.CloneBlock(b)})
+			err := n.Bridge.AddAccountBlocks([]*nom.AccountBlock{simnet.CloneBlock(b)})
+			if os.Getenv("C06_DEBUG") != "" {
+				c.Logf("DEBUG gossip %s %s/%d type=%d ack=%d -> %v (node height %d)", n.Name, b.Address, b.Height, b.BlockType, b.MomentumAcknowledged.Height, err, n.Height())
+			}
 		}
+	}
+	if os.Getenv("C06_DEBUG") != "" {
+		c.Logf("DEBUG after switch: S=%d R=%d Spool=%d Rpool=%d", S.Height(), R.Height(), len(S.Chain.GetAllUncommittedAccountBlocks()), len(R.Chain.GetAllUncommittedAccountBlocks()))
 	}
 	c06Compare(c, S, R, forkPoint, "after-switch", depthX)
 	c.Distinct(fmt.Sprintf("depthX=%d lenY=%d switches=1 feats=%d", depthX, depthX+extraY, len(feats)))
